@@ -90,6 +90,7 @@ type fakeBroker struct {
 
 	maxBatchesPerFetch int
 	stat               map[string]int64
+	fetched            map[string]bool
 }
 
 func newFakeBroker(obs brokerObserver) (*fakeBroker, error) {
@@ -103,7 +104,7 @@ func newFakeBroker(obs brokerObserver) (*fakeBroker, error) {
 		ln: ln, host: h, port: int32(pn), wake: make(chan struct{}),
 		topics: map[string][]*fPartition{}, commits: map[string]map[int32]commitObs{},
 		assign: map[string][]byte{}, conns: map[net.Conn]struct{}{}, obs: obs,
-		maxBatchesPerFetch: 4, stat: map[string]int64{},
+		maxBatchesPerFetch: 4, stat: map[string]int64{}, fetched: map[string]bool{},
 	}
 	go b.acceptLoop()
 	return b, nil
@@ -211,12 +212,12 @@ func encodeBatch(fb *fBatch) []byte {
 	var recs []byte
 	for _, r := range fb.Recs {
 		var body []byte
-		body = append(body, 0)                      // attributes
-		body = kbin.AppendVarlong(body, 0)          // timestamp delta
-		body = kbin.AppendVarint(body, r.Delta)     // offset delta
-		body = kbin.AppendVarintBytes(body, r.Key)  // key (nil => -1)
+		body = append(body, 0)                       // attributes
+		body = kbin.AppendVarlong(body, 0)           // timestamp delta
+		body = kbin.AppendVarint(body, r.Delta)      // offset delta
+		body = kbin.AppendVarintBytes(body, r.Key)   // key (nil => -1)
 		body = kbin.AppendVarintBytes(body, r.Value) // value (nil => -1)
-		body = kbin.AppendVarint(body, 0)           // headers
+		body = kbin.AppendVarint(body, 0)            // headers
 		recs = kbin.AppendVarint(recs, int32(len(body)))
 		recs = append(recs, body...)
 	}
@@ -621,6 +622,10 @@ func (b *fakeBroker) handleFetch(req *kmsg.FetchRequest) kmsg.Response {
 					rt.Partitions = append(rt.Partitions, rp)
 					got = true
 					continue
+				}
+				if fk := t.Topic + "/" + strconv.Itoa(int(p.Partition)); !b.fetched[fk] {
+					b.fetched[fk] = true
+					b.stat["partitions_fetched"]++
 				}
 				fp := parts[p.Partition]
 				hw := fp.hw()
